@@ -1,94 +1,243 @@
-"""C14 — VLAN pair -> subscriber group (pkg/config/subscriber/match.go, pkg/config/vlan/parser.go)."""
+"""C14 - VLAN pair -> subscriber group (pkg/config/subscriber/match.go, pkg/config/vlan/parser.go)."""
 import itertools
 
 ID = "C14"
-HARNESSES = [dict(name="subscriber", pkg="./pkg/config/subscriber/", test="TestVerifC14",
+HARNESSES = [dict(name="subscriber", pkg="./pkg/config/subscriber/", test="TestVerifC14", timeout=1500,
                   files=[("pkg/config/subscriber/zz_verif_c14_test.go", "harness/C14/zz_verif_c14_test.go")])]
-RULE = ("parse/cvlan: every string of length <= L over a 12-symbol alphabet (digits 0 1 4 9, '-', space, tab, "
-        "U+00A0, U+2003, 'a', '+', 'n') plus structured boundary strings; cfg: random configurations (<=5 groups, "
-        "<=3 ranges, colliding/overlapping/unparseable ranges) each queried on S-VLANs 8..22,4094,4095 x C-VLANs "
-        "{0,1,99..102,4094,4095}. Non-trivial: parse case that is accepted, or cfg case with at least one match "
-        "and one miss. Distinct: by case text.")
+RULE = ("parse/cvlan: every string of length <= L (3 quick, 4 thorough) over a 16-symbol alphabet (digits 0 1 4 9, '-', "
+        "space, tab, U+00A0, U+2003, U+1680, U+200B (not a space), 'a', 'n', 'y', 'Y', '+'), structured boundary strings, "
+        "every one of the 25 unicode.IsSpace code points and 40 near-misses in 9+7 positions, random strings; "
+        "runes: EVERY code point 0..0xFFFF (quick) / 0..0x10FFFF (thorough), surrogates excluded, in 9 positions, swept inside the harness and "
+        "inside the model driver, results compared as runs; cfg: random configurations (<=5 groups incl. nil entries, "
+        "<=3 ranges, colliding/overlapping/unparseable ranges, differently spelled equal selectors) each queried on 29 "
+        "S-VLANs x 9 C-VLANs with 3 rebuilds; sweep: random configurations with wide ranges, ALL 4096x4096 pairs looked "
+        "up in the harness and compared there with a quadratic reference written in the harness, digest of the whole "
+        "table compared with the digest the model computes from ref_lookup over the classes of "
+        "C14_lookup_class_invariant (12 quick / 400 thorough), plus dense sweeps (2 quick / 64 thorough) that together make every S-VLAN and every C-VLAN value an exact index key. Non-trivial: parse case that is accepted, cfg/sweep "
+        "case with at least one match and one miss. Distinct: by case text.")
 TRUSTED = ["strings are modelled as lists of Unicode code points; invalid UTF-8 input is outside the model",
-           "strings.ToLower is modelled on ASCII only (no other rune lower-cases to a, n or y)"]
-ASSUMPTIONS = ["group names in generated configurations are ASCII (Go compares UTF-8 bytes; the model compares code points)"]
+           "strings.ToLower is modelled on ASCII only (no other rune lower-cases to a, n or y: checked for every code "
+           "point by the 'runes cy/cl' cases)",
+           "sweep digest: the OCaml driver expands the class table to 4096x4096 with the extracted rep/s_cuts/c_cuts "
+           "(C14_lookup_via_representative); run-length encoding and md5 are driver/harness glue on both sides"]
+ASSUMPTIONS = ["group names in generated configurations are valid UTF-8 (Go compares UTF-8 bytes, the model compares "
+               "code points; the two orders coincide for valid UTF-8)"]
+
+# unicode.IsSpace, every code point
+SPACES = [9, 10, 11, 12, 13, 32, 0x85, 0xA0, 0x1680] + list(range(0x2000, 0x200B)) + [0x2028, 0x2029, 0x202F, 0x205F, 0x3000]
+# code points Go does NOT treat as space (neighbours of every class, zero-width and format characters that other
+# languages' isspace accept, look-alike digits and dashes)
+NEAR = [0, 8, 14, 0x1C, 0x1D, 0x1E, 0x1F, 0x21, 0x7F, 0x84, 0x86, 0x9F, 0xA1, 0xAD, 0x167F, 0x1681, 0x180E, 0x1FFF,
+        0x200B, 0x200C, 0x200D, 0x200E, 0x2010, 0x2013, 0x2027, 0x202A, 0x202E, 0x2030, 0x205E, 0x2060, 0x2212,
+        0x2FFF, 0x3001, 0x303F, 0xFEFF, 0xFF10, 0xFF0D, 0x0660, 0xFFFD, 0x10FFFF]
+RUNE_KINDS = ["pl", "pt", "pd", "pa", "pm", "cl", "ct", "ca", "cy"]
 
 
 def enc(s):
     return ".".join(str(ord(ch)) for ch in s) if s else "e"
 
 
-ALPHA = ["0", "1", "4", "9", "-", " ", "\t", " ", " ", "a", "+", "n"]
+ALPHA = ["0", "1", "4", "9", "-", " ", "\t", "\u00a0", "\u2003", "\u1680", "\u200b", "a", "n", "y", "Y", "+"]
 STRUCT = ["0", "1", "4094", "4095", "65535", "65536", "99999999999999999999", "00001", "1-1", "1-4094", "1-4095",
           "0-5", "5-0", "5-4", "10 - 20", " 10-20 ", "10--20", "10-20-30", "-5", "5-", "-", "1 0", "+5", "0x10",
-          "1_0", "10- 20", " 1 ", "４", "4094-4094", "4095-4095", "65535-65535", "65536-1",
-          "1-65536", " ", "", "\n7\r", "7\v", "7\f", " 7", " 7 ", " 7 ", "　7",
-          "\u00857", "​7", "﻿7", "000000000000000000000000000004094", "12a", "a12", "1.5", "1e3"]
-CV_STRUCT = ["any", "ANY", "Any", "aNy", " any ", "anyx", "an", "a n y", "", " ", "0", "1", "4094", "4095",
-             "100", "\tany\n", " any", "ÀNY", "any-any", "1-2"]
+          "1_0", "10- 20", "10 -20", "10\t-20", "10-\t20", "10 -\u00a020", "\u300010\u2028-\u202920\u205f",
+          " 1 ", "\uff14", "4094-4094", "4095-4095", "65535-65535", "65536-1", "4094-4095", "4093-4094",
+          "1-65536", " ", "", "\n7\r", "7\v", "7\f", "\u00a07", "\u20037 ", "\u2009 7", "\u30007",
+          "\u00857", "\u200b7", "\ufeff7", "\u180e7", "7\u200b", "7\ufeff", "7\u180e",
+          "000000000000000000000000000004094", "12a", "a12", "1.5", "1e3", "1-2 ", " 1-2", "1 -2", "1- 2",
+          "1 - 2", "1  -  2", "1-2-", "-1-2", "1--2", "1\u20132", "1\u22122", "2-1", "2-2", "3-2", "0-0", "0-1",
+          "1-0", "4094-1", "4000-4094", "4000-4095", "4095-4096", "65535-65536", "+1-2", "1-+2", "1-2a", "a-2"]
+CV_STRUCT = ["any", "ANY", "Any", "aNy", "anY", "aNY", "AnY", "ANy", " any ", "anyx", "xany", "an", "ny", "a n y",
+             "a\u200bny", "", " ", "\t\n\v\f\r ", "\u0085\u00a0\u1680\u2000\u200a\u2028\u2029\u202f\u205f\u3000",
+             "\u200b", "\ufeff", "\u180e", "0", "1", "4094", "4095", "100", "0100", "\tany\n", "\u00a0any",
+             "\u3000ANY\u2028", "\u00c0NY", "\u0251ny", "a\u0273y", "any-any", "1-2", "any any", "4094 ", "+100",
+             "65535", "65536", "\u212any", "an\u00ff"]
+
+
+def cfg_line(kind, groups, qs=None):
+    toks = [kind, str(len(groups))]
+    for n, rs in groups:
+        if rs is None:
+            toks += [n, "-1"]
+            continue
+        toks += [n, str(len(rs))]
+        for a, b in rs:
+            toks += [a, b]
+    if qs is not None:
+        toks.append(str(len(qs)))
+        for a, b in qs:
+            toks += [str(a), str(b)]
+    return " ".join(toks)
+
+
+def parse_cfg(t):
+    ng = int(t[1])
+    p = 2
+    groups = []
+    for _ in range(ng):
+        name, nr = t[p], int(t[p + 1])
+        p += 2
+        if nr < 0:
+            groups.append((name, None))
+            continue
+        rs = [(t[p + 2 * j], t[p + 2 * j + 1]) for j in range(nr)]
+        p += 2 * nr
+        groups.append((name, rs))
+    qs = None
+    if p < len(t):
+        nq = int(t[p])
+        qs = [(t[p + 1 + 2 * j], t[p + 2 + 2 * j]) for j in range(nq)]
+    return groups, qs
+
+
+NAMES = ["a", "b", "ab", "B", "aa", "b0", "a-", "z", "A", "Z", "_", "aB", "\u00e9", "a b"]
+QS = [(s, c) for s in list(range(8, 25)) + [0, 1, 2, 3, 4089, 4090, 4091, 4092, 4093, 4094, 4095]
+      for c in (0, 1, 99, 100, 101, 102, 4093, 4094, 4095)]
 
 
 def gen_cases(rng, tier, budget):
     L = 3 if tier == "quick" else 4
     cases = []
+    # the whole code point space through both parsers, in every position (one line per kind)
+    for k in RUNE_KINDS:
+        cases.append("runes %s 0 %d" % (k, 0xFFFF if tier == "quick" else 0x10FFFF))
+    cases.append("cfgnil %d %s" % (len(QS), " ".join("%d %d" % q for q in QS)))
     for n in range(0, L + 1):
         for t in itertools.product(ALPHA, repeat=n):
             s = "".join(t)
             cases.append("parse " + enc(s))
-            if n <= L - 1:
-                cases.append("cvlan " + enc(s))
+            cases.append("cvlan " + enc(s))
     for s in STRUCT + CV_STRUCT:
         cases.append("parse " + enc(s))
         cases.append("cvlan " + enc(s))
+    # every space class and every near-miss, in every position of both grammars
+    for cp in SPACES + NEAR:
+        w = chr(cp)
+        for s in (w, w + "7", "7" + w, w + "7" + w, "7" + w + "-" + w + "9", w + "7" + w + "-" + w + "9" + w, "1" + w + "0",
+                  "7-" + w + "9", "7" + w + "-9"):
+            cases.append("parse " + enc(s))
+        for s in (w, w + "5", "5" + w, w + "5" + w, w + "any" + w, "a" + w + "ny", "1" + w + "0"):
+            cases.append("cvlan " + enc(s))
     nrand = 400 if tier == "quick" else 4000
+    ws_pool = [""] * 6 + [chr(c) for c in SPACES] + ["  ", " \t", "\u200b", "\ufeff"]
     for _ in range(nrand):
         k = rng.randint(1, 9)
         s = "".join(rng.choice(ALPHA + ["2", "3", "5", "6", "7", "8"]) for _ in range(k))
         cases.append("parse " + enc(s))
         a, b = rng.choice([0, 1, 2, 100, 4093, 4094, 4095, 65535, 65536]), rng.choice([0, 1, 2, 100, 4094, 4095, 70000])
-        ws = lambda: rng.choice(["", " ", "\t", "  ", " "])
+        ws = lambda: rng.choice(ws_pool)
         cases.append("parse " + enc("%s%d%s-%s%d%s" % (ws(), a, ws(), ws(), b, ws())))
-        cases.append("cvlan " + enc(ws() + rng.choice(["any", "ANY", "aNY", str(a), str(b), "x"]) + ws()))
+        cases.append("parse " + enc("%s%d%s" % (ws(), a, ws())))
+        anyv = "".join(rng.choice(p) for p in ("aA", "nN", "yY"))
+        cases.append("cvlan " + enc(ws() + rng.choice([anyv, anyv, str(a), str(b), "x", "0%d" % a]) + ws()))
+    # configurations with explicit queries
     ncfg = (budget or 300) if tier == "quick" else (budget or 6000)
-    names = ["a", "b", "ab", "B", "aa", "b0", "a-", "z"]
     svs = ["10", "11", "12", "10-12", "11-20", "12-12", " 15 ", "20-22", "0", "x", "5000", "4094", "4090-4094",
-           "21-20", "10-", ""]
-    cvs = ["", "any", "ANY", "100", "101", " 100", "0", "x", "4094", "4095", "1"]
-    qs = [(s, c) for s in list(range(8, 24)) + [4089, 4090, 4094, 4095, 0]
-          for c in (0, 1, 99, 100, 101, 102, 4094, 4095)]
-    qtxt = " ".join("%d %d" % q for q in qs)
-    for _ in range(ncfg):
+           "21-20", "10-", "", "010", "10 - 12", "\u00a010-11\u3000", "1-2", "4093-4094", "4094-4095", "9-10"]
+    cvs = ["", "any", "ANY", "100", "101", " 100", "0", "x", "4094", "4095", "1", "Any", " any ", "\tANY", " ",
+           "0100", "100\u2003", "99", "102", "4093"]
+    for i in range(ncfg):
         ng = rng.randint(0, 5)
-        gn = rng.sample(names, ng)
-        toks = ["cfg", str(ng)]
-        for n in gn:
-            nr = rng.randint(0, 3)
-            toks += [enc(n), str(nr)]
-            for _ in range(nr):
-                toks += [enc(rng.choice(svs)), enc(rng.choice(cvs))]
-        toks += [str(len(qs)), qtxt]
-        cases.append(" ".join(toks))
+        gn = rng.sample(NAMES, ng)
+        groups = []
+        if i % 5 == 0 and ng >= 2:
+            # differently spelled but equal selectors on overlapping S-VLANs: must collide
+            eq = rng.choice([["", "any", "ANY", " ", " any ", "Any"], ["100", " 100", "0100", "100\u2003"],
+                             ["4094", " 4094", "04094"], ["1", "01", "1 "]])
+            ov = rng.choice([["10", "10-12", "9-10", "010"], ["4094", "4093-4094", "4090-4094"], ["1-2", "1", "2"],
+                             ["12", "10-12", "11-20", "12-12"]])
+            for n in gn:
+                groups.append((enc(n), [(enc(rng.choice(ov)), enc(rng.choice(eq)))
+                                        for _ in range(rng.randint(1, 2))]))
+        else:
+            for n in gn:
+                if rng.random() < 0.05:
+                    groups.append((enc(n), None))
+                    continue
+                groups.append((enc(n), [(enc(rng.choice(svs)), enc(rng.choice(cvs)))
+                                        for _ in range(rng.randint(0, 3))]))
+        cases.append(cfg_line("cfg", groups, QS))
+    # exhaustive 4096 x 4096 sweeps
+    nsw = 12 if tier == "quick" else 400
+    ends = [1, 2, 3, 100, 101, 255, 256, 2047, 2048, 4000, 4093, 4094]
+    for i in range(nsw):
+        groups = []
+        for n in rng.sample(NAMES, rng.randint(1, 6)):
+            rs = []
+            for _ in range(rng.randint(1, 4)):
+                a = rng.choice(ends + [rng.randint(1, 4094)])
+                b = rng.choice(ends + [rng.randint(1, 4094), a, a, min(4094, a + rng.randint(0, 40))])
+                a, b = (a, b) if (a <= b or rng.random() < 0.1) else (b, a)
+                sv = rng.choice([str(a), "%d-%d" % (a, b), "%d-%d" % (a, b), " %d - %d " % (a, b), "1-4094",
+                                 "%d-%d" % (a, min(4095, b + 1)) if i % 7 == 0 else "%d-%d" % (a, b)])
+                cv = rng.choice(["", "any", " ANY", str(rng.choice(ends)), str(rng.choice(ends)), str(rng.randint(1, 4094)),
+                                 "0", "4095"])
+                rs.append((enc(sv), enc(cv)))
+            groups.append((enc(n), rs))
+        cases.append(cfg_line("sweep", groups))
+    # dense sweeps: block b names the S-VLANs 64b..64b+63 one by one, each with a different exact C-VLAN, so that
+    # over the 64 blocks (thorough) every S-VLAN value and every C-VLAN value is an exact key of some index
+    blocks = list(range(64)) if tier != "quick" else rng.sample(range(64), 2)
+    for b in blocks:
+        rs = []
+        for j in range(64):
+            v = 64 * b + j
+            if 1 <= v <= 4094:
+                rs.append((enc(str(v)), enc(str(4095 - v))))
+        groups = [(enc("d"), rs), (enc("w"), [(enc("%d-%d" % (max(1, 64 * b - 3), min(4094, 64 * b + 70))), enc("any"))])]
+        cases.append(cfg_line("sweep", groups))
     return cases
 
 
+def _split(o):
+    return o.split(" ; ", 1) if " ; " in o else (o, "")
+
+
+def _kv(s):
+    return dict(x.split("=", 1) for x in s.split() if "=" in x)
+
+
 def nontrivial(case, out):
-    if case.startswith("cfg"):
-        r = out.split(" ; ")[-1].split()
+    k = case.split(" ", 1)[0]
+    if k in ("cfg", "cfgnil"):
+        r = _split(out)[1].split()
         return "none" in r and any(x != "none" for x in r)
+    if k == "sweep":
+        h = int(_kv(_split(out)[1]).get("hits", "0") or 0)
+        return 0 < h < 4096 * 4096
+    if k == "runes":
+        return out != "nothing"
     return out != "err"
 
 
 def classify(case, impl, model):
-    if case.startswith("cfg"):
-        iv, ir = impl.split(" ; ") if " ; " in impl else (impl, "")
-        mv, mr = model.split(" ; ") if " ; " in model else (model, "")
+    k = case.split(" ", 1)[0]
+    if k in ("cfg", "cfgnil"):
+        iv, ir = _split(impl)
+        mv, mr = _split(model)
         if ir != mr:
-            k = [i for i, (x, y) in enumerate(zip(ir.split(), mr.split())) if x != y]
+            d = [i for i, (x, y) in enumerate(zip(ir.split(), mr.split())) if x != y]
             return "P", "Lookup disagrees with the reference scan at query #%s: impl=%s model=%s" % (
-                k[:3], [ir.split()[i] for i in k[:3]], [mr.split()[i] for i in k[:3]])
-        if iv.split()[0] != mv.split()[0]:
+                d[:3], [ir.split()[i] for i in d[:3]], [mr.split()[i] for i in d[:3]])
+        if iv.split()[:1] != mv.split()[:1]:
             return "P", "ValidateMatchIndex verdict differs: impl=%r model=%r" % (iv, mv)
         return "G", "collision report differs: impl=%r model=%r" % (iv, mv)
+    if k == "sweep":
+        iv, ir = _split(impl)
+        mv, mr = _split(model)
+        ik, mk = _kv(ir), _kv(mr)
+        if ik.get("diff", "?") != "none":
+            return "P", ("exhaustive sweep: Lookup differs from the quadratic reference scan at "
+                         "svlan:cvlan %s (impl %s, model %s)" % (ik.get("diff"), ir, mr))
+        if ik.get("md5") != mk.get("md5"):
+            return "P", "exhaustive sweep: digest of the 4096x4096 classification table differs: impl=%r model=%r" % (ir, mr)
+        if iv.split()[:1] != mv.split()[:1]:
+            return "P", "ValidateMatchIndex verdict differs: impl=%r model=%r" % (iv, mv)
+        return "G", "collision report differs: impl=%r model=%r" % (iv, mv)
+    if k == "runes":
+        a, b = set(impl.split(",")), set(model.split(","))
+        return "P", "parsers treat code points differently (runes %s): only impl %s, only model %s" % (
+            case.split()[1], sorted(a - b)[:4], sorted(b - a)[:4])
     return "P", "parser accepts/rejects differently: impl=%r model=%r" % (impl, model)
 
 
@@ -100,52 +249,63 @@ def shrink(case):
             r = cps[:i] + cps[i + 1:]
             yield t[0] + " " + (".".join(r) if r else "e")
         return
-    ng = int(t[1])
-    p = 2
-    groups = []
-    for _ in range(ng):
-        name, nr = t[p], int(t[p + 1])
-        p += 2
-        rs = [(t[p + 2 * j], t[p + 2 * j + 1]) for j in range(nr)]
-        p += 2 * nr
-        groups.append((name, rs))
-    nq = int(t[p])
-    qs = [(t[p + 1 + 2 * j], t[p + 2 + 2 * j]) for j in range(nq)]
-
-    def emit(gs, qs):
-        toks = ["cfg", str(len(gs))]
-        for n, rs in gs:
-            toks += [n, str(len(rs))]
-            for a, b in rs:
-                toks += [a, b]
-        toks.append(str(len(qs)))
-        for a, b in qs:
-            toks += [a, b]
-        return " ".join(toks)
+    if t[0] == "runes":
+        lo, hi = int(t[2]), int(t[3])
+        if hi > lo:
+            mid = (lo + hi) // 2
+            yield "runes %s %d %d" % (t[1], lo, mid)
+            yield "runes %s %d %d" % (t[1], mid + 1, hi)
+        return
+    if t[0] == "cfgnil":
+        return
+    groups, qs = parse_cfg(t)
     for i in range(len(groups)):
-        yield emit(groups[:i] + groups[i + 1:], qs)
+        yield cfg_line(t[0], groups[:i] + groups[i + 1:], qs)
     for i, (n, rs) in enumerate(groups):
-        for j in range(len(rs)):
-            yield emit(groups[:i] + [(n, rs[:j] + rs[j + 1:])] + groups[i + 1:], qs)
-    if len(qs) > 1:
-        yield emit(groups, qs[:len(qs) // 2])
-        yield emit(groups, qs[len(qs) // 2:])
+        if rs and len(rs) > 4:      # long range lists (dense sweeps): halves first
+            h = len(rs) // 2
+            yield cfg_line(t[0], groups[:i] + [(n, rs[:h])] + groups[i + 1:], qs)
+            yield cfg_line(t[0], groups[:i] + [(n, rs[h:])] + groups[i + 1:], qs)
+    for i, (n, rs) in enumerate(groups):
+        for j in range(len(rs or [])):
+            yield cfg_line(t[0], groups[:i] + [(n, rs[:j] + rs[j + 1:])] + groups[i + 1:], qs)
+    if qs and len(qs) > 1:
+        yield cfg_line(t[0], groups, qs[:len(qs) // 2])
+        yield cfg_line(t[0], groups, qs[len(qs) // 2:])
         for i in range(len(qs)):
-            yield emit(groups, [qs[i]])
+            yield cfg_line(t[0], groups, [qs[i]])
 
 
 def distribution(cases, impl):
     d = {"parse": 0, "parse_ok": 0, "cvlan": 0, "cvlan_ok": 0, "cfg": 0, "cfg_collision": 0, "lookup_hits": 0,
-         "lookup_misses": 0}
+         "lookup_misses": 0, "cfgnil": 0, "sweep": 0, "sweep_pairs": 0, "sweep_hits": 0, "sweep_collision": 0,
+         "sweep_rowruns_max": 0, "runes": 0, "runes_code_points": 0}
+    seen = set()
     for c, o in zip(cases, impl):
         k = c.split(" ", 1)[0]
         d[k] += 1
-        if k == "cfg":
-            v, r = o.split(" ; ") if " ; " in o else (o, "")
+        if k in ("cfg", "cfgnil"):
+            v, r = _split(o)
             d["cfg_collision"] += v.startswith("collision")
             r = r.split()
             d["lookup_misses"] += r.count("none")
             d["lookup_hits"] += len(r) - r.count("none")
-        elif o != "err":
-            d[k + "_ok"] += 1
+        elif k == "sweep":
+            v, r = _split(o)
+            kv = _kv(r)
+            d["sweep_collision"] += v.startswith("collision")
+            d["sweep_pairs"] += 4096 * 4096
+            d["sweep_hits"] += int(kv.get("hits", 0))
+            d["sweep_rowruns_max"] = max(d["sweep_rowruns_max"], int(kv.get("rowruns", 0)))
+        elif k == "runes":
+            t = c.split()
+            d["runes_code_points"] += int(t[3]) - int(t[2]) + 1
+        else:
+            if o != "err":
+                d[k + "_ok"] += 1
+            tok = c.split()[1]
+            if tok != "e":
+                seen.update(int(x) for x in tok.split("."))
+    d["space_code_points_in_string_cases"] = "%d/%d" % (len(seen & set(SPACES)), len(SPACES))
+    d["near_miss_code_points_in_string_cases"] = "%d/%d" % (len(seen & set(NEAR)), len(NEAR))
     return d
